@@ -5,7 +5,7 @@ import json, re, sys, importlib.util
 rnd = sys.argv[1]
 spec = importlib.util.spec_from_file_location("sm", "/verif/scripts/seeded_meta.py"); sm = importlib.util.module_from_spec(spec); spec.loader.exec_module(sm)
 tried = {}
-for row in sm.R + sm.R2 + getattr(sm, "R3", []) + getattr(sm, "R4", []) + getattr(sm, "R5", []) + getattr(sm, "R6", []):
+for row in sm.R + sm.R2 + getattr(sm, "R3", []) + getattr(sm, "R4", []) + getattr(sm, "R5", []) + getattr(sm, "R6", []) + getattr(sm, "R7", []) + getattr(sm, "R8", []):
     tried.setdefault(row[1], []).append(row[2])
 tmpl = open("/root/seed2-C20.txt").read()
 head_end = tmpl.index("PROPERTY C20")
